@@ -24,7 +24,99 @@ func cstr(v value) string {
 
 var errType types.Type // set in main: type of errors.New result placeholder
 
-func mkError(msg *Term) value { return iface{t: errType, v: structure{msg}} }
+func mkError(msg *Term) value { return iface{t: errType, v: structure{msg, iface{}}} }
+
+func mkWrapError(msg *Term, wrapped value) value {
+	return iface{t: errType, v: structure{msg, wrapped}}
+}
+
+// unwrapOnce returns the errors wrapped by err (Unwrap() error / []error).
+func (i *Interp) unwrapOnce(caller *frame, err iface) []iface {
+	if err.t == errType {
+		w := err.v.(structure)[1].(iface)
+		if w.t == nil {
+			return nil
+		}
+		return []iface{w}
+	}
+	f := i.method(err.t, "Unwrap")
+	if f == nil {
+		return nil
+	}
+	r := i.call(caller, 0, f, []value{err.v})
+	switch r := r.(type) {
+	case iface:
+		if r.t == nil {
+			return nil
+		}
+		return []iface{r}
+	case []value:
+		var out []iface
+		for _, x := range r {
+			if xi := x.(iface); xi.t != nil {
+				out = append(out, xi)
+			}
+		}
+		return out
+	}
+	return nil
+}
+
+func (i *Interp) errorsIs(caller *frame, err, target iface, depth int) bool {
+	if depth > 20 {
+		fault("errors.Is: chain too deep")
+	}
+	if err.t == nil || target.t == nil {
+		return err.t == nil && target.t == nil
+	}
+	if types.Identical(err.t, target.t) && types.Comparable(err.t) {
+		if c := equals(err.v, target.v); i.branch(c) {
+			return true
+		}
+	}
+	if err.t != errType {
+		if f := i.method(err.t, "Is"); f != nil {
+			if r := i.call(caller, 0, f, []value{err.v, target}).(*Term); i.branch(r) {
+				return true
+			}
+		}
+	}
+	for _, w := range i.unwrapOnce(caller, err) {
+		if i.errorsIs(caller, w, target, depth+1) {
+			return true
+		}
+	}
+	return false
+}
+
+func (i *Interp) errorsAs(caller *frame, err iface, ptr *value, T types.Type, depth int) bool {
+	if depth > 20 {
+		fault("errors.As: chain too deep")
+	}
+	if err.t == nil {
+		return false
+	}
+	if it, ok := T.Underlying().(*types.Interface); ok {
+		if types.Implements(err.t, it) {
+			*ptr = err
+			return true
+		}
+	} else if types.Identical(err.t, T) {
+		*ptr = copyVal(err.v)
+		return true
+	}
+	if err.t != errType {
+		if f := i.method(err.t, "As"); f != nil {
+			fault("errors.As: As method not supported")
+		}
+	}
+	for _, w := range i.unwrapOnce(caller, err) {
+		if i.errorsAs(caller, w, ptr, T, depth+1) {
+			return true
+		}
+	}
+	return false
+}
 
 func init() {
 	nop := func(i *Interp, caller *frame, fn *ssa.Function, args []value) value { return nil }
@@ -42,44 +134,66 @@ func init() {
 		"strings.Contains": func(i *Interp, _ *frame, _ *ssa.Function, a []value) value {
 			return StrContains(a[0].(*Term), a[1].(*Term))
 		},
-		"strings.TrimPrefix": func(i *Interp, _ *frame, _ *ssa.Function, a []value) value {
+		"strings.TrimPrefix_": func(i *Interp, _ *frame, _ *ssa.Function, a []value) value {
 			s, p := a[0].(*Term), a[1].(*Term)
 			if s.Const && p.Const {
 				return TStr(strings.TrimPrefix(s.S, p.S))
 			}
-			rest := app(SStr, 0, "str.substr", s, app(SBV, 0, "str.len", p), app(SBV, 0, "str.len", s))
+			rest := StrSubstr(s, StrLenInt(p), StrLenInt(s))
 			return Ite(StrPrefixOf(p, s), rest, s)
 		},
-		"path/filepath.IsAbs": func(i *Interp, _ *frame, _ *ssa.Function, a []value) value {
-			return StrPrefixOf(TStr("/"), a[0].(*Term))
+		"fmt.Sprintf": func(i *Interp, caller *frame, _ *ssa.Function, a []value) value {
+			return i.sprintfC(caller, cstr(a[0]), a[1].([]value))
 		},
-		"path/filepath.Join": func(i *Interp, _ *frame, _ *ssa.Function, a []value) value {
-			parts := a[0].([]value)
+		"fmt.Sprint": func(i *Interp, caller *frame, _ *ssa.Function, a []value) value {
 			r := TStr("")
-			for k, p := range parts {
-				if k > 0 {
-					r = StrConcat(r, TStr("/"))
-				}
-				r = StrConcat(r, p.(*Term))
+			for _, x := range a[0].([]value) {
+				r = StrConcat(r, i.formatValue(caller, x.(iface), 'v'))
 			}
 			return r
 		},
-		"fmt.Sprintf": func(i *Interp, _ *frame, _ *ssa.Function, a []value) value {
-			return i.sprintf(cstr(a[0]), a[1].([]value))
-		},
-		"fmt.Errorf": func(i *Interp, _ *frame, _ *ssa.Function, a []value) value {
-			return mkError(i.sprintf(cstr(a[0]), a[1].([]value)))
+		"fmt.Errorf": func(i *Interp, caller *frame, _ *ssa.Function, a []value) value {
+			format := cstr(a[0])
+			args := a[1].([]value)
+			msg := i.sprintfC(caller, format, args)
+			if k := strings.Index(format, "%w"); k >= 0 {
+				n := strings.Count(strings.ReplaceAll(format[:k], "%%", ""), "%")
+				if n < len(args) {
+					return mkWrapError(msg, args[n])
+				}
+			}
+			return mkError(msg)
 		},
 		"errors.New": func(i *Interp, _ *frame, _ *ssa.Function, a []value) value {
 			return mkError(a[0].(*Term))
 		},
-		"errors.As": func(i *Interp, _ *frame, _ *ssa.Function, a []value) value {
-			err := a[0].(iface)
-			if err.t == nil {
-				return TBool(false)
+		"errors.Is": func(i *Interp, caller *frame, _ *ssa.Function, a []value) value {
+			return TBool(i.errorsIs(caller, a[0].(iface), a[1].(iface), 0))
+		},
+		"errors.As": func(i *Interp, caller *frame, _ *ssa.Function, a []value) value {
+			tgt := a[1].(iface)
+			pt, ok := tgt.t.(*types.Pointer)
+			if !ok {
+				fault("errors.As: target is not a pointer")
 			}
-			fault("errors.As on non-nil error not supported in spike")
-			return nil
+			return TBool(i.errorsAs(caller, a[0].(iface), tgt.v.(*value), pt.Elem(), 0))
+		},
+		"errors.Unwrap": func(i *Interp, caller *frame, _ *ssa.Function, a []value) value {
+			e := a[0].(iface)
+			if e.t == nil {
+				return iface{}
+			}
+			if e.t == errType {
+				return e.v.(structure)[1]
+			}
+			f := i.method(e.t, "Unwrap")
+			if f == nil {
+				return iface{}
+			}
+			if r, ok := i.call(caller, 0, f, []value{e.v}).(iface); ok {
+				return r
+			}
+			return iface{}
 		},
 		"(*gopkg.in/yaml.v3.Node).Decode": func(i *Interp, _ *frame, _ *ssa.Function, a []value) value {
 			if i.ex.choose(2, "stub") == 0 {
@@ -96,7 +210,81 @@ func init() {
 	}
 }
 
-func (i *Interp) sprintf(format string, args []value) *Term {
+func (i *Interp) sprintf(format string, args []value) *Term { return i.sprintfC(nil, format, args) }
+
+// formatValue renders one operand for the verbs s v q d w x.
+func (i *Interp) formatValue(caller *frame, arg iface, verb byte) *Term {
+	if arg.t == nil {
+		return TStr("<nil>")
+	}
+	// error / Stringer
+	if verb != 'd' && verb != 'x' {
+		if arg.t == errType {
+			return arg.v.(structure)[0].(*Term)
+		}
+		if _, isBasic := arg.t.Underlying().(*types.Basic); !isBasic || i.method(arg.t, "String") != nil || i.method(arg.t, "Error") != nil {
+			for _, m := range []string{"Error", "String"} {
+				if f := i.method(arg.t, m); f != nil && f.Signature.Params().Len() == 0 && f.Signature.Results().Len() == 1 {
+					if r, ok := i.call(caller, 0, f, []value{arg.v}).(*Term); ok && r.Sort == SStr {
+						return r
+					}
+				}
+			}
+		}
+	}
+	switch v := arg.v.(type) {
+	case *Term:
+		switch v.Sort {
+		case SStr:
+			if verb == 'q' {
+				if v.Const {
+					return TStr(fmt.Sprintf("%q", v.S))
+				}
+				return StrConcat(StrConcat(TStr(`"`), v), TStr(`"`))
+			}
+			if verb == 'x' && v.Const {
+				return TStr(fmt.Sprintf("%x", v.S))
+			}
+			return v
+		case SBV:
+			if v.Const {
+				_, signed, _ := bvWidth(arg.t)
+				if verb == 'x' {
+					return TStr(fmt.Sprintf("%x", v.U))
+				}
+				if signed {
+					return TStr(fmt.Sprint(v.signed()))
+				}
+				return TStr(fmt.Sprint(v.U))
+			}
+			return StrFromInt(IntOf(BVResize(v, 64, false)))
+		case SBool:
+			return Ite(v, TStr("true"), TStr("false"))
+		}
+	case []value:
+		r := TStr("[")
+		for k, x := range v {
+			if k > 0 {
+				r = StrConcat(r, TStr(" "))
+			}
+			et := arg.t.Underlying().(*types.Slice).Elem()
+			xi, ok := x.(iface)
+			if !ok {
+				xi = iface{t: et, v: x}
+			}
+			r = StrConcat(r, i.formatValue(caller, xi, verb))
+		}
+		return StrConcat(r, TStr("]"))
+	case *value:
+		if v == nil {
+			return TStr("<nil>")
+		}
+		return TStr("0xc000000000")
+	}
+	return TStr(fmt.Sprintf("<%v>", arg.t))
+}
+
+func (i *Interp) sprintfC(caller *frame, format string, args []value) *Term {
 	r := TStr("")
 	ai := 0
 	for k := 0; k < len(format); k++ {
@@ -109,36 +297,44 @@ func (i *Interp) sprintf(format string, args []value) *Term {
 		if k >= len(format) {
 			break
 		}
+		// flags / width (only constant-width padding of constants is supported)
+		start := k
+		for k < len(format) && strings.IndexByte("+-# 0123456789.", format[k]) >= 0 {
+			k++
+		}
+		if k >= len(format) {
+			break
+		}
+		mods := format[start:k]
 		switch format[k] {
 		case '%':
 			r = StrConcat(r, TStr("%"))
-		case 's', 'v', 'q', 'd':
+		case 's', 'v', 'q', 'd', 'w', 'x', 'T':
 			if ai >= len(args) {
-				r = StrConcat(r, TStr("%!(MISSING)"))
+				r = StrConcat(r, TStr("%!"+string(format[k])+"(MISSING)"))
 				continue
 			}
 			arg := args[ai].(iface)
 			ai++
-			var piece *Term
-			switch v := arg.v.(type) {
-			case *Term:
-				switch v.Sort {
-				case SStr:
-					piece = v
-				case SBV:
-					if v.Const {
-						piece = TStr(fmt.Sprint(v.signed()))
-					} else {
-						piece = app(SStr, 0, "str.from_int", app(SBV, 0, "bv2nat", v))
-					}
-				case SBool:
-					piece = Ite(v, TStr("true"), TStr("false"))
+			if format[k] == 'T' {
+				if arg.t == nil {
+					r = StrConcat(r, TStr("<nil>"))
+				} else {
+					r = StrConcat(r, TStr(arg.t.String()))
 				}
-			default:
-				piece = TStr(fmt.Sprintf("<%T>", v))
+				continue
 			}
-			if format[k] == 'q' {
-				piece = StrConcat(StrConcat(TStr(`"`), piece), TStr(`"`))
+			piece := i.formatValue(caller, arg, format[k])
+			if mods != "" {
+				if !piece.Const {
+					fault("sprintf: width/flags %q on a symbolic operand", mods)
+				}
+				// re-render natively with the modifiers
+				var nat any = piece.S
+				if format[k] == 'd' || format[k] == 'x' {
+					nat = arg.v.(*Term).signed()
+				}
+				piece = TStr(fmt.Sprintf("%"+mods+string(format[k]), nat))
 			}
 			r = StrConcat(r, piece)
 		default:
@@ -174,9 +370,7 @@ func (i *Interp) assert(c *Term, label string) {
 	case "sat":
 		i.violations = append(i.violations, Violation{Label: label, Model: model, Kind: "assert"})
 		// continue on the side where the assertion holds
-		if !i.branchAssume(c) {
-			panic(pathEnd{"assert always false"})
-		}
+		i.branchAssume(c)
 	case "unsat":
 	default:
 		i.violations = append(i.violations, Violation{Label: label, Kind: "unknown"})
@@ -201,41 +395,9 @@ func init() {
 		"github.com/go-task/task/v3/internal/version.GetVersion": func(i *Interp, _ *frame, _ *ssa.Function, a []value) value {
 			return TStr("v0")
 		},
-		"path/filepath.ToSlash": ident(0),
-		"path/filepath.Dir": func(i *Interp, _ *frame, _ *ssa.Function, a []value) value {
-			return StrConcat(TStr("dir:"), a[0].(*Term))
-		},
-		"strings.SplitN": func(i *Interp, _ *frame, _ *ssa.Function, a []value) value {
-			s, sep, n := a[0].(*Term), a[1].(*Term), a[2].(*Term)
-			if s.Const && sep.Const && n.Const {
-				parts := strings.SplitN(s.S, sep.S, int(n.signed()))
-				out := make([]value, len(parts))
-				for k := range parts {
-					out[k] = TStr(parts[k])
-				}
-				return out
-			}
-			fault("symbolic SplitN")
-			return nil
-		},
 	}
 	for k, v := range more {
 		intrinsics[k] = v
 	}
 }
 
-func trimSpaceTerm(t *Term) *Term {
-	if t.Const {
-		return TStr(strings.TrimSpace(t.S))
-	}
-	if t.Op == "str.++" && t.Args[1].Const && strings.TrimSpace(t.Args[1].S) == "" {
-		return trimSpaceTerm(t.Args[0])
-	}
-	return t // spike: symbolic strings are whitespace-free by alphabet
-}
-
-func init() {
-	intrinsics["strings.TrimSpace"] = func(i *Interp, _ *frame, _ *ssa.Function, a []value) value {
-		return trimSpaceTerm(a[0].(*Term))
-	}
-}
